@@ -292,6 +292,11 @@ def parse_rvalue(s):
         ops = []
         if rest.startswith('('):
             ops = [parse_operand(a) for a in split_top(rest[1:_match_close(rest, 0)])]
+        elif rest.startswith('{'):
+            # captured variables, printed by name in capture order
+            for a in split_top(rest[1:_match_close(rest, 0)]):
+                m = re.match(r'^(\w+)\s*:\s*(.*)$', a, re.S)
+                ops.append(parse_operand(m.group(2) if m else a))
         return ('agg', 'closure', s[:j + 1], ops)
     # Adt: Path::Variant(a, b) | Path { f: a } | Path::Unit
     if s.endswith(')'):
